@@ -49,7 +49,8 @@ def stepBasic (st : St) (op res : String) : St × List String :=
       ({ s := s', mon := mon.1 },
        br :: brd ++ (if (r == "ok") == ok then [] else [s!"DIVERGE dom model={if ok then "ok" else "err"}"]) ++
        (if mon.2 then [] else [s!"FAIL C10 setup {proto}: file {if fileOk v6 lines then "is well-formed but was rejected" else "has a malformed line but was accepted"}"]))
-  | ["fwrite", proto, _], [[orc], [seen]] =>
+  | [fw, proto, _], [[orc], [seen]] =>      -- fwrite: rewritten in place; fmove: written under another name and moved into place
+    if fw != "fwrite" && fw != "fmove" then (st, ["DIVERGE drift unparsed-op"]) else
     match parseLines orc with
     | none => (st, ["DIVERGE drift unparsed-oracle"])
     | some lines =>
@@ -60,8 +61,8 @@ def stepBasic (st : St) (op res : String) : St × List String :=
       let late := ok && seen != "replaced"
       let early := !ok && seen == "replaced"
       ({ s := s', mon := mon.1 },
-       (if ok then "br:fwrite.good" else "br:fwrite.bad") ::
-       (if late then ["DIVERGE dom model=replaced", "FAIL C10 a well-formed update of the lease file was not picked up"] else []) ++
+       (if ok then s!"br:{fw}.good" else s!"br:{fw}.bad") ::
+       (if late then ["DIVERGE dom model=replaced", s!"FAIL C10 a well-formed update of the lease file ({if fw == "fmove" then "a new file moved into its place" else "rewritten in place"}) was not picked up"] else []) ++
        (if early then ["DIVERGE dom model=unchanged", "FAIL C10 a malformed update replaced the mapping"] else []))
   | ["fq4", mac], [r] =>
     match parseHex mac with
